@@ -166,7 +166,8 @@ claim("C20", "DESIGN.md 5 C20",
       "parses exactly the bytes returned (it parsed the whole 1504-byte buffer: repaired) from a buffer of its own, and writes only a packet that parsed; the incoming packet is written after the recovered ones; no panic in Write/fetch; the maybeUint32 helpers are exact. "
       "adjustOrigin (audio and video share one time origin): when a file is opened the shift is computed from the opening track's timestamp at its own clock rate, and every track with an origin is moved by that same duration converted at THAT track's clock rate. "
       "diskConn.close (stopping the recording / departure of the publisher): every track is flushed first and then every writer is closed - when close returns no track is left with an open writer, it returns all the tracks and the connection has no file "
-      "(close flushed and closed track by track, so a writer created by a later track's flush stayed open and the file unfinished: repaired).",
+      "(close flushed and closed track by track, so a writer created by a later track's flush stayed open and the file unfinished: repaired). "
+      "initWriter: a track that had a time origin still has one when the file has been opened or - for a keyframe with new dimensions - reopened, so that keyframe and the frames after it are written (the reopening cleared the origin and every frame until the next keyframe was dropped: repaired); setOrigin always leaves the track with an origin.",
       "Assumed: pion rtp.Packet.Unmarshal, writeRTP, writeBuffered and requestKeyframe (trusted: they keep the track's connection, publisher, list of tracks and lock; writeBuffered may create writers for every track), BlockWriteCloser.Close has no effect on the recorder's state; rtptime.FromDuration/ToDuration as pure functions of their arguments (128-bit arithmetic, not modelled). "
       "NOT decided (the larger part of the statement): everything inside writeRTP/writeBuffered, pion samplebuilder and ebml-go - frame completeness, order, duplicates, 'no frame after the first keyframe is missing', monotone timestamps, the rest of the shared-origin logic (setOrigin, sender reports), container well-formedness, flush on close. "
       "These need contracts on third-party sample assembly and container code that is outside the repository.")
